@@ -26,7 +26,7 @@ def evaluate(mid):
         rc, out = run(["patch", "-p1", "-s", "-i", os.path.join(d, "patch.diff")], s)
         applies = rc == 0
         suite = demo_patch_fails = None
-        detected, hits = [], []
+        detected, hits, structured = [], [], []
         if applies:
             rc, _ = run(["go", "test", "-vet=off", "-count=1", "-skip", "TestDemo", "."], s)
             suite = rc == 0
@@ -36,18 +36,18 @@ def evaluate(mid):
             rc, lst = run([V + "/bin/kvqlcheck", "-list"], V)
             props = [l.split(":")[0] for l in lst.splitlines() if l.strip()]
             for p in props:
-                rc, out = run([V + "/bin/kvqlcheck", "-property", p, "-tier", "quick", "-no-evidence"], V, dict(ENV, KVQL_REPO=s))
-                lines = out.splitlines()
-                for i, l in enumerate(lines):
-                    if l.startswith("VIOLATION"):
-                        if p not in detected:
-                            detected.append(p)
-                        if i + 1 < len(lines):
-                            hits.append(p + ": " + lines[i + 1].strip()[:300])
+                rc, out = run([V + "/bin/kvqlcheck", "-property", p, "-tier", "quick", "-no-evidence", "-json"], V, dict(ENV, KVQL_REPO=s, KVQLCHECK_NO_CONTROLS="1"))
+                for l in out.splitlines():
+                    if l.startswith("JSON-VIOLATIONS: "):
+                        for v in json.loads(l[len("JSON-VIOLATIONS: "):]) or []:
+                            if p not in detected:
+                                detected.append(p)
+                            hits.append(p + ": " + v["kind"] + " " + v["key"] + " " + v.get("pos", "") + ": " + v.get("detail", "")[:240])
+                            structured.append({"property": p, "rule": v["rule"], "key": v["key"]})
         meta.update({"id": mid, "verified": {"demo_passes_on_unchanged_tree": demo_clean, "patch_applies": applies,
                      "existing_suite_passes_with_patch": suite, "demo_fails_with_patch": demo_patch_fails},
                      "what_i_ran": "tools/seeded_eval.py: scratch copy of /repo working tree; go test -run TestDemo (clean); patch -p1; go test -skip TestDemo; go test -run TestDemo; bin/kvqlcheck -property <each claimed> -tier quick with KVQL_REPO=<scratch>",
-                     "detected_by": detected, "hits": hits})
+                     "detected_by": detected, "hits": hits, "violations": structured})
         json.dump(meta, open(meta_path, "w"), indent=1)
         ok = demo_clean and applies and suite and demo_patch_fails
         print("%-14s prop=%s valid=%s detected_by=%s" % (mid, meta.get("property"), ok, ",".join(detected) or "-"))
